@@ -297,7 +297,8 @@ class TqdmManager:
         """
         Stops the tqdm manager
         """
-        cls.MANAGER.shutdown()
+        if cls.MANAGER is not None:
+            cls.MANAGER.shutdown()
         cls.MANAGER = None
         cls.LOCK = None
         cls.POSITION_REGISTER = None
